@@ -100,6 +100,12 @@ def templates():
     T['dict_display'] = "L({q(1): q(2), q(3): q(4)})\n"
     T['comprehension'] = "L([q(i) for i in (q(5), q(6)) if q(7)])\n"
     T['fstring'] = "L(f'{q(1)!r:>{q(2)}}{q(3)}')\n"
+    # the object of an augmented subscript / attribute target is a plain name that the index / operand rebinds:
+    # the name is loaded once, first
+    T['aug_sub_index_rebinds_object'] = ("a = [q(1), q(2)]\nb = [q(3), q(4)]\ndef sw():\n    global a\n    a = b\n    return q(0)\na[sw()] += q(5)\nL('ab', a, b)\n"
+                                         "c = [q(6), q(7)]\ne = c\nc[(c := [q(8), q(9)])[0] - 8] += q(1)\nL('ce', c, e)\n")
+    T['aug_attr_operand_rebinds_object'] = ("class O_:\n    v = 0\no1 = O_()\no2 = O_()\nx = o1\ndef sw2():\n    global x\n    x = o2\n    return q(5)\nx.v += sw2()\nL('o', o1.v, o2.v)\n")
+    T['assign_sub_value_rebinds_object'] = "g = [0, 0]\nh = [9, 9]\ndef sw3():\n    global g\n    g = h\n    return q(1)\ng[q(0)] = sw3()\nL('gh', g, h)\n"
     # expression statements that are nothing but a literal with evaluated parts
     T['bare_fstring'] = "f'{q(1)!r:>{q(2)}}{q(3)}'\nf'a{q(4)}' f'{q(5)}b'\n"
     T['bare_fstring_in_function'] = "def f():\n    f'{q(1)}{q(2)!s}'\n    return q(3)\nf()\n"
